@@ -34,4 +34,35 @@ pub open spec fn as_string_spec(v: StateValue) -> Option<Seq<char>> {
         _ => None,
     }
 }
+/// the collection `val` holds the text `v` as one of its values (array item, set member, map value)
+pub open spec fn refs(val: StateValue, v: String) -> bool {
+    match val {
+        StateValue::List(l) => l@.contains(StateValue::String(v)),
+        StateValue::Set(st) => st@.contains(v),
+        StateValue::SubState(m) => exists|k: String| m@.contains_key(k) && #[trigger] m@[k] == StateValue::String(v),
+        _ => false,
+    }
+}
+/// recursive release is closed: whatever a released collection holds as a value is released too
+pub open spec fn closed_release(h0: Map<String, StateValue>, h1: Map<String, StateValue>) -> bool {
+    forall|h: String, v: String| h0.contains_key(h) && !h1.contains_key(h) && #[trigger] refs(h0[h], v) ==> !h1.contains_key(v)
+}
+pub open spec fn closed_release_ex(h0: Map<String, StateValue>, h1: Map<String, StateValue>, key: String) -> bool {
+    forall|h: String, v: String| h != key && h0.contains_key(h) && !h1.contains_key(h) && #[trigger] refs(h0[h], v) ==> !h1.contains_key(v)
+}
+/// one more recursive call (cb -> ca) keeps the closure over everything but the entry being released
+pub proof fn lemma_closed_step(h0: Map<String, StateValue>, key: String, cb: Map<String, StateValue>, ca: Map<String, StateValue>)
+    requires submap(cb, h0.remove(key)), submap(ca, cb), closed_release_ex(h0, cb, key), closed_release(cb, ca),
+    ensures closed_release_ex(h0, ca, key), submap(ca, h0.remove(key)),
+{
+    assert forall|h: String, v: String| h != key && h0.contains_key(h) && !ca.contains_key(h) && #[trigger] refs(h0[h], v) implies !ca.contains_key(v) by {
+        if cb.contains_key(h) {
+            assert(h0.remove(key).contains_key(h) && cb[h] == h0.remove(key)[h]);
+            assert(refs(cb[h], v));
+        } else {
+            assert(!cb.contains_key(v));
+        }
+    }
+}
+
 } // mod sspec
